@@ -4,6 +4,7 @@ import ChmpyVerif.Props.C01
 import ChmpyVerif.Props.C02
 import ChmpyVerif.Props.C03
 import ChmpyVerif.Props.C05
+import ChmpyVerif.Props.C10
 import ChmpyVerif.Props.C11
 import ChmpyVerif.Props.C12
 import ChmpyVerif.Props.C13
